@@ -87,6 +87,16 @@ def expr_end_semantics(repo):
             it = Interp(repo, facts)
             it.nodevisitor_model = True
             want = _last_leaf(root)
+            from . import pyref
+
+            def order(wa, wb, root=root):
+                try:
+                    ka, kb = pyref.pathkey(root, wa[0]), pyref.pathkey(root, wb[0])
+                except Exception:
+                    return None
+                ka, kb = (ka, wa[1]), (kb, wb[1])
+                return -1 if ka < kb else 1 if ka > kb else 0
+            it.position_order = order
 
             def run(it=it, root=root):
                 fn = it.lookup_global(UTIL, 'get_expr_end')
@@ -118,3 +128,66 @@ def expr_end_semantics(repo):
             out.append((cls, verdict, detail))
         return out
     return repo.memo('exprend', build)
+
+
+# ---------------------------------------------------------------------------------------------------------------
+# concrete layouts: get_expr_end interpreted on real parse trees
+# ---------------------------------------------------------------------------------------------------------------
+
+LAYOUTS = [
+    "f(k=1, *x)", "f(*x, k=1)", "f(a, *x, k=1, **kw)", "f(k=1, **kw)", "f(**kw)", "f(a)(b).c", "a.b.c[d]", "a[1:2, ::3]",
+    "x if c else y", "(x\n    if c\n else y)", "[i for i in x if i]", "{k: v for k, v in it}", "(i for i in\n x)",
+    "lambda a, b=1, *c, d=2, **e: a", "{**a, 'k': 1}", "{'k': 1, **a}", "[*a, b]", "(a, b,\n c)", "(a,\n  b,\nc)", "f(a,\n  b)\n",
+    "a + b * c", "not a", "-a", "a and b or c", "a < b <= c", "await f(x)", "(yield x)", "(yield from x)", "(n := f(x))",
+    "f'{x}: {y!r:>{w}}'", "'text' 'more'", "'''multi\nline'''", "('''multi\nline''', a)", "f(x, '''multi\nline''')", "f('''m\nl''', x)",
+    "a if b else c if d else e", "f(g(h(1)))", "x[f(k=1, *y)]", "f(*a, *b)", "f(k=1, *a, **b)", "{a, b}", "{a for a in b}",
+]
+
+
+def from_ast(node, path='node'):
+    """a real ast node -> SymNode tree carrying the parser's positions"""
+    import ast
+    from . import grammar as G
+    cls = type(node).__name__
+    flds = {}
+    for name, val in ast.iter_fields(node):
+        p = '%s.%s' % (path, name)
+        if isinstance(val, ast.AST):
+            flds[name] = from_ast(val, p)
+        elif isinstance(val, list):
+            flds[name] = [from_ast(v, '%s[%d]' % (p, i)) if isinstance(v, ast.AST) else v for i, v in enumerate(val)]
+        else:
+            flds[name] = val
+    n = SymNode(cls, path, G.SORT_OF.get(cls, cls), flds)
+    for a in ('lineno', 'col_offset', 'end_lineno', 'end_col_offset'):
+        if hasattr(node, a):
+            n.extra[a] = getattr(node, a)
+    return n
+
+
+def expr_end_layouts(repo):
+    """-> list of (text, ok, detail): get_expr_end on the parse tree of each layout must be one column after the start of the
+    textually last node (the largest start position in the tree)."""
+    def build():
+        import ast
+        facts = get_facts(repo)
+        out = []
+        for text in LAYOUTS:
+            tree = ast.parse('_ = ' + text.lstrip() if not text.startswith('(') else '_ = ' + text)
+            value = tree.body[0].value
+            want = max((n.lineno, n.col_offset) for n in ast.walk(value) if hasattr(n, 'lineno'))
+            want = (want[0], want[1] + 1)
+            it = Interp(repo, facts)
+            it.nodevisitor_model = True
+            it.reset_path([])
+            try:
+                got = it.call(it.lookup_global(UTIL, 'get_expr_end'), [from_ast(value)], {})
+            except InterpRaise as e:
+                out.append((text, False, 'raises %s' % e))
+                continue
+            except Uninterpretable as e:
+                out.append((text, None, str(e)))
+                continue
+            out.append((text, got == want, 'get_expr_end(%r) = %r, the textually last node starts at %r' % (text, got, (want[0], want[1] - 1))))
+        return out
+    return repo.memo('exprend-layouts', build)
